@@ -218,6 +218,10 @@ func (x *Exec) havocShared(st *State) {
 		if x.isThreadLocalKey(k) {
 			continue
 		}
+		if own, ok := x.e.db.Owner[k]; ok && own == x.top.Key {
+			// only this function's goroutine writes the field: it finds it as it left it
+			continue
+		}
 		st.heap[k] = x.vc.Fresh("H."+k, x.e.keys[k])
 	}
 	if oldAlloc != "" {
